@@ -594,7 +594,7 @@ def stress(ck, tier):
     n = s["chunks"]
     chunks = [scen[i::n] for i in range(n)]
     out = {"scenarios": len(scen), "events": 0, "rejected": [], "inconclusive": 0}
-    budget = 240 if tier == "quick" else 600
+    budget = 150 if tier == "quick" else 300
     with cf.ThreadPoolExecutor(max_workers=min(n, 3)) as ex:
         for i, results, rows, rejected, inconclusive in ex.map(lambda a: stress_chunk(ck, a[0], a[1], budget), enumerate(chunks)):
             if rejected and "crash" in rejected[0]:
